@@ -787,6 +787,26 @@ func modeClient(c *Ctx) {
 				c.Sample(map[string]any{"op": op.Key, "url": urlOf(t.lastReq), "headers": t.lastReq.Header})
 			}
 		}
+		// ---- C09 through the package's own in-process client (API.LocalClient)
+		if lcm := e.api.MethodByName("LocalClient"); lcm.IsValid() && lcm.Type().NumIn() == 0 && lcm.Type().NumOut() == 1 {
+			lcl := lcm.Call(nil)[0]
+			if lcl.Type() == cl.Type() {
+				var rawBody string
+				params := c.genParams(&Gen{Rng: c.Rng, Doc: c.Doc}, op, &rawBody)
+				e.next = reflect.Value{}
+				e.ran, e.ranKey = false, ""
+				in := fmt.Sprintf("%s %s through API.LocalClient()", op.Key, trunc(dumpValue(params), 300))
+				_, err, pv := callClient(lcl, op, params)
+				c.Stat("local_client_requests", 1)
+				switch {
+				case pv != nil:
+					c.Viol("panic", "client call panicked: "+firstLine(fmt.Sprint(pv)), in, nil, nil)
+				case !e.ran:
+					// (a request that ran another operation: a path value fitting a more literal template, see above)
+					c.Viol("request-lost", "the request built by the package's local client did not reach any operation's handler", in, "handler runs", fmt.Sprintf("err=%v base path %q", err, c.Base))
+				}
+			}
+		}
 		// ---- C10: responses
 		zp := reflect.New(op.ParamsType).Elem()
 		canonParams := c.genParams(&Gen{Rng: c.Rng, Doc: c.Doc}, op, nil)
